@@ -65,10 +65,14 @@ func FileHandler(path string) (AuthenticationHandler, error) {
 				MountPoint:   DefaultMountPoint,
 			})
 		case 3:
+			mountPoint := records[idx][2]
+			if mountPoint == "" {
+				mountPoint = DefaultMountPoint
+			}
 			out = append(out, fileRecord{
 				UsernameHash: fingerprintString(records[idx][0]),
 				PasswordHash: records[idx][1],
-				MountPoint:   records[idx][2],
+				MountPoint:   mountPoint,
 			})
 		}
 	}
